@@ -151,6 +151,10 @@ pub trait Check: Sync {
     fn valid(&self, _case: &Case) -> bool {
         true
     }
+    /// further reductions of a failing case beyond dropping `ops` (e.g. thread programs in `params`)
+    fn shrink_candidates(&self, _case: &Case) -> Vec<Case> {
+        Vec::new()
+    }
     fn rule(&self) -> String;
     /// name of the Stats set whose size is `distinct_nontrivial`
     fn nontrivial_set(&self) -> &'static str;
@@ -297,6 +301,22 @@ pub fn minimise(check: &dyn Check, case: &Case, class: &str, budget: std::time::
                     changed = true;
                     break 'outer;
                 }
+            }
+        }
+    }
+    // 3. check-specific reductions (thread programs, reader counts ...)
+    let mut progress = true;
+    while progress && t0.elapsed() < budget {
+        progress = false;
+        for cand in check.shrink_candidates(&best) {
+            if t0.elapsed() >= budget {
+                break;
+            }
+            if let Some(v) = try_case(&cand) {
+                best = cand;
+                best_v = v;
+                progress = true;
+                break;
             }
         }
     }
